@@ -103,6 +103,39 @@ def direct(prop, ops):
                         dead.add(m.group(1))
                     elif m.group(1) in dead:
                         out.append(Finding(prop, i, sig(i, "resurrected"), f"{m.group(1)} was dead and is alive again"))
+    if prop == "C03":
+        # an id stays valid until its entity is despawned: an entity shown alive before an operation and dead after it must
+        # have been despawned by that operation (the top-level despawn, the removal of a component type it had, or a handler
+        # that ran in it and can despawn - or, inside a component removal, can give the component to a bystander).  Judged
+        # only where the `st` lines name every live entity.
+        bodies = {}
+        prev = None
+        for i, (op, obs) in enumerate(ops):
+            if op.startswith("addh "):
+                f = dict(t.split("=", 1) for t in op.split(" ")[1:] if "=" in t)
+                bodies[f.get("name", "")] = f.get("body", "")
+            st = lines_of(obs, "st ")
+            cur = st[0] if st and store_complete(st[0]) else None
+            if op.startswith(("setgen", "drop")):
+                prev = None
+                continue
+            if prev is not None and cur is not None:
+                before = oracle.parse_store(prev)
+                after = oracle.parse_store(cur)
+                ran = {l.split(" ")[2] for l in obs if l.startswith("t h ") and len(l.split(" ")) > 2}
+                acts = ",".join(bodies.get(h, "despawn,ins:") for h in ran)      # an unknown handler could do anything
+                for ent, vals in before.items():
+                    if ent in after or f"{ent}=x" not in cur:
+                        continue
+                    if op == f"despawn {ent}":
+                        continue
+                    m = re.match(r"rmc K(\d+)$", op)
+                    if m and int(m.group(1)) in vals:
+                        continue
+                    if "despawn" in acts or (m and "ins:" in acts):
+                        continue
+                    out.append(Finding(prop, i, sig(i, "vanished"), f"{ent} was alive before `{op}` and is dead after it, and nothing despawned it"))
+            prev = cur
     if prop in ("C11", "C13"):
         seen = {}
         for i, (op, obs) in enumerate(ops):
